@@ -36,6 +36,10 @@ def candleRat (ts : List String) : Option (Candle Rat) := candleOfToks ts
 /-- check one `X` line; `none` = agrees -/
 def renkoStep (eps : Rat) (pre : Renko) (c : Candle Rat) (value : Rat) (obs agg blocks post : List String) : Option String :=
   let vol := pre.volume + c.volume
+  -- prices that have decayed towards the subnormal range (brick sizes close to 1 shrink the base line by orders of
+  -- magnitude per brick): the relative-error model of DESIGN §3 does not apply there
+  let tiny : Rat := 1 / ((2 ^ 900 : Nat) : Rat)
+  if ratAbs value < tiny || ratAbs pre.last_block_lower < tiny then none else
   let lenTok := (kv obs "len").getD "?"
   let L : Nat := ((lenTok.drop 1).toString.toNat?).getD 0
   let up := pre.next_block_upper ≤ value
@@ -71,8 +75,12 @@ def renkoStep (eps : Rat) (pre : Renko) (c : Candle Rat) (value : Rat) (obs agg 
     let ll := if up then base * (1 + b * (Lq - 1)) else base * (1 - b * Lq)
     let dir := if up then "i1" else "i-1"
     -- (3) new boundaries, volume reset
-    if !(relOk eps ps.last_block_upper lu ∧ relOk eps ps.last_block_lower ll ∧
-         relOk eps ps.next_block_upper (lu * (1 + b)) ∧ relOk eps ps.next_block_lower (ll * (1 - b))) then
+    -- `1 ± b·L` is formed with a rounded product: the error is absolute in units of the base line (it is not small
+    -- relative to the result when b·L is close to 1)
+    let sc := ratAbs base * (1 + b * Lq)
+    let absOk (y q : Rat) : Bool := ratAbs (y - q) ≤ 32 * eps * sc
+    if !(absOk ps.last_block_upper lu ∧ absOk ps.last_block_lower ll ∧
+         absOk ps.next_block_upper (lu * (1 + b)) ∧ absOk ps.next_block_lower (ll * (1 - b))) then
       some "new boundaries differ from the model step"
     else if ps.volume != 0 then some "volume not reset after emission"
     else if kv agg "sign" != some dir then some "direction flag"
@@ -111,7 +119,8 @@ def renkoStep (eps : Rat) (pre : Renko) (c : Candle Rat) (value : Rat) (obs agg 
       | some g, some ao, some ac, some av =>
         if !relOk eps g (sgn * b * Lq) then some "gap"
         else if ao != base then some "aggregate open ≠ base line"
-        else if !relOk eps ac (base + sgn * b * Lq) then some "aggregate close"
+        -- the aggregate is the candle of the emitted bricks: it closes where the last brick closes
+        else if !relOk eps ac ((sgn * b * Lq + 1) * base) then some "aggregate close"
         else if !relOk eps av vol then some s!"total volume {ratStr av} ≠ consumed volume {ratStr vol}"
         else none
       | _, _, _, _ => some "aggregate view not finite"
